@@ -386,6 +386,8 @@ def misuse_rules(facts, rep):
         some_arg = any(x[0] == "agg" and x[1] == "adt:Some" and x[3][0][1][0] == "arg" for a in ra for x in walk(a))
         good = uses_contains and some_arg and facts.sigs.get(co.path, {}).get("output", "").startswith("std::option::Option<")
         ok &= rep.check(good, rule, "clamp_opt", where(co, co.span), "clamp_opt yields Some(value) only through range.contains(value)", "clamp_opt changed: %s" % [show(a) for a in ra])
+    elif not any(inv.get(m_) is not None for m_ in ("Deflated", "Bzip2", "Zstd")):
+        pass        # this feature configuration compiles no compressing method: there is no level to validate
     else:
         # no Option-yielding clamp helper: the membership test must then be decided in switch_to itself (E0 inlines private helpers),
         # on the requested level, in every compressing arm -- the rows above have checked what each edge does
